@@ -39,6 +39,29 @@ def one(args):
             'agree': a.digest == b.digest and sorted(v.signature for v in a.violations) == sorted(v.signature for v in b.violations)}
 
 
+def one_pool(args):
+    """Uninterrupted pool run: SimPool (in-process) vs the real multiprocessing.Pool in a fresh interpreter."""
+    seed, index = args
+    import c17
+    from sim import kernel, pfworld, realproc, resume
+    plan = c17.gen_plan(seed, 'quick', index)
+    plan = dict(plan, enumerate=False)
+    snaps = []
+    for cls, real in ((pfworld.PfWorld, False), (realproc.RealProcWorld, True)):
+        w = cls(plan, kernel.RunResult(), kernel.EventLog())
+        w.real_pool = real
+        try:
+            w.setup_inputs()
+            w.install()
+            proc = w.simulate_process(os.path.join(w.root, 'out'), dict(plan['resume'], crash_at=None))
+            snaps.append((proc.exit, pfworld.snapshot(os.path.join(w.root, 'out'))))
+        finally:
+            w.uninstall()
+            w.cleanup()
+    return {'index': index, 'mode': plan['mode'], 'procs': plan['procs'], 'pages': len(plan['pages']), 'files': len(snaps[0][1]),
+            'agree': snaps[0] == snaps[1], 'exits': [snaps[0][0], snaps[1][0]]}
+
+
 def main():
     args = [a for a in sys.argv[1:] if not a.startswith('--')]
     count = int(args[0]) if args else 16
@@ -52,6 +75,16 @@ def main():
     bad = [r for r in rows if not r['agree']]
     out = {'compared': len(rows), 'disagreements': len(bad), 'real_processes': sum(r['real_processes'] for r in rows),
            'real_kills': sum(r['real_kills'] for r in rows), 'wall_s': round(time.time() - t0, 1), 'rows': rows}
+    if '--pool' in sys.argv:
+        pidx = [i for i in range(0, 4000) if c17.gen_plan(seed, 'quick', i)['procs'] > 1][:count]
+        with cf.ProcessPoolExecutor(max_workers=min(8, count)) as ex:
+            prow = list(ex.map(one_pool, [(seed, i) for i in pidx]))
+        pbad = [r for r in prow if not r['agree']]
+        out['real_pool'] = {'compared': len(prow), 'disagreements': len(pbad), 'rows': prow}
+        print('cross-validation of SimPool against multiprocessing.Pool (uninterrupted runs): %d plans, %d disagreements' % (len(prow), len(pbad)))
+        for r in pbad[:5]:
+            print('DISAGREE', r)
+        bad = bad + pbad
     os.makedirs('/verif/crossval', exist_ok=True)
     json.dump(out, open('/verif/crossval/realproc.json', 'w'), indent=1)
     print('cross-validation against real process death: %d plans, %d real processes, %d real kills, %d disagreements, %.0fs' % (
